@@ -9,14 +9,18 @@ import sys
 
 HERE = os.path.dirname(os.path.dirname(os.path.abspath(__file__)))
 res = {}
+kinds = {}
 for log in sys.argv[1:]:
     for line in open(log, encoding="utf-8", errors="replace"):
         m = re.match(r"^(C\d\d-\w+): (.*)$", line.strip())
         if not m:
             continue
         seed = m.group(1)
-        for p, rc in re.findall(r"== (C\d\d) exit=(\d+)", m.group(2)):
+        for p, rc, extra in re.findall(r"== (C\d\d) exit=(\d+)(?: \[D:(\d+ B:\d+)\])?", m.group(2)):
             res.setdefault(seed, {})[p] = int(rc)
+            if extra:
+                d, b = extra.replace("B:", "").split()
+                kinds.setdefault(seed, {})[p] = (int(d), int(b))
 rows = []
 for seed in sorted(os.listdir(os.path.join(HERE, "seeded"))):
     mp = os.path.join(HERE, "seeded", seed, "meta.json")
@@ -26,6 +30,8 @@ for seed in sorted(os.listdir(os.path.join(HERE, "seeded"))):
     run = res.get(seed, meta.get("checks_run", {}))
     meta["checks_run"] = run
     meta["checks_detecting"] = sorted(p for p, rc in run.items() if rc == 1)
+    if seed in kinds:
+        meta["violated_obligations"] = {p: {"deductive": d, "bounded": b} for p, (d, b) in kinds[seed].items() if d or b}
     json.dump(meta, open(mp, "w"), indent=1)
     own = seed.split("-")[0]
     missed = sorted(p for p, rc in run.items() if rc == 0)
@@ -38,7 +44,12 @@ for seed in sorted(os.listdir(os.path.join(HERE, "seeded"))):
             if l.lower().startswith("- change:") or l.lower().startswith("**change"):
                 what = re.sub(r"[`*|]", "", l.split(":", 1)[1]).strip()[:110]
                 break
-    rows.append((seed, what, ", ".join(meta["checks_detecting"]) or "—",
+    def tag(p):
+        k = meta.get("violated_obligations", {}).get(p)
+        if not k:
+            return p
+        return p + (" (d)" if k["deductive"] and not k["bounded"] else " (b)" if k["bounded"] and not k["deductive"] else " (d+b)")
+    rows.append((seed, what, ", ".join(tag(p) for p in meta["checks_detecting"]) or "—",
                  ", ".join(missed) or "—", ", ".join(f"{p}={run[p]}" for p in other) or ""))
 print("| seed | change (from the sub-agent's notes) | detected by (exit 1) | run, not affected (exit 0) |")
 print("|---|---|---|---|")
